@@ -228,6 +228,27 @@ def run(ctx):
             impl.append(out2)
             meta.append({"kind": "sticky-port", "parts": parts2, "members": mem2, "out": out2, "prev": r1})
         ctx.coverage["sticky_grow_join_second_rounds"] = n_grow
+    # returning members with stale (older-generation) user data, any subscriptions: validity and KIP-54 of round 3
+    # (no T-diff: the port models single-generation user data)
+    if ctx.replay_cases is None and hangs.get("sticky", 0) < 2:
+        from checks.c15 import returning_chain
+        n_ret = 12000 if ctx.thorough else 1500
+        for _ in range(n_ret):
+            try:
+                parts3, _m2, m3, _r2, r3 = returning_chain(A, rng2, rng2.random() < 0.4)
+            except Exception as e:  # noqa
+                if type(e).__name__ == "AssignorHang":
+                    hangs["sticky"] = hangs.get("sticky", 0) + 1
+                    if hangs["sticky"] >= 2:
+                        break
+                    continue
+                ctx.violation(f"sticky-raises:{type(e).__name__}", f"sticky assignor raised {e!r} in a returning-member chain", {"cases": []})
+                continue
+            out3 = enc_output(r3)
+            lines.append(f"c14 holds sticky {enc_parts(parts3)} {enc_parts(m3)} {out3}")
+            impl.append("true")
+            meta.append({"kind": "sticky", "parts": parts3, "members": m3, "out": out3, "second_round": True, "multi_generation": True})
+        ctx.coverage["sticky_returning_member_rounds"] = n_ret
     res = ctx.driver("akdriver", lines)
     ctx.coverage["rule"] = ("inputs: slice (quick) or all (thorough) of the space ≤4 members × ≤3 topics × 0..4 "
                             "partitions or no metadata × every non-empty subscription, plus seeded random inputs to "
